@@ -54,6 +54,28 @@ func SnapDiff(a, b string) (field, context string) {
 	for i < n && a[i] == b[i] {
 		i++
 	}
+	// package-level variables are listed last, one "VAR <name> <value>" line each
+	if k := strings.LastIndex(a[:i], "VAR "); k >= 0 && (k == 0 || a[k-1] == '\n') {
+		name := a[k+4:]
+		if e := strings.IndexAny(name, " \n"); e >= 0 {
+			name = name[:e]
+		}
+		if e := strings.LastIndex(name, "/"); e >= 0 {
+			name = name[e+1:]
+		}
+		s := i - 120
+		if s < k {
+			s = k
+		}
+		ea, eb := i+120, i+120
+		if ea > len(a) {
+			ea = len(a)
+		}
+		if eb > len(b) {
+			eb = len(b)
+		}
+		return "var:" + name, fmt.Sprintf("before: …%s…\nafter:  …%s…", a[s:ea], b[s:eb])
+	}
 	// nearest "Name:" before i
 	j := i
 	for j > 0 {
